@@ -26,7 +26,8 @@ MANIFEST = {
             "peer-selection correspondence, not by running two nodes. Trusted: Coq kernel + vm_compute, fidelity of the hand "
             "models as sampled, Go harness, Python glue.",
 }
-IMPORTS = "From LE Require Import Sync.PeerSelect Sync.Handlers Sync.Converge Corr.C19."
+IMPORTS = "From LE Require Import Sync.PeerSelect Sync.Handlers Corr.C19."
+IMPORTS_SYNC = "From LE Require Import Sync.Converge Corr.C19."
 
 BADS_H = {"hcb-nil": "None", "hcb-garbage": "None", "hcb-empty": "(Some [])"}
 BADS_B = {"bfi-nil": "None", "bfi-garbage": "None", "bfi-shortid": "(Some (0, false))"}
@@ -152,7 +153,7 @@ def evaluate(ck, recs):
                                                    json.dumps(r["spec"])), r, corr="two-node sync run")
         else:
             syncs.append(r)
-    rsy = ck.coq_eval(IMPORTS, "sync_case", "check_sync", [sync_term(r) for r in syncs], shard=40, tag="sync")
+    rsy = ck.coq_eval(IMPORTS_SYNC, "sync_case", "check_sync", [sync_term(r) for r in syncs], shard=40, tag="sync")
     if rsy is not None:
         for r, code in zip(syncs, rsy):
             ck.count()
